@@ -14,6 +14,7 @@ import (
 	"runtime"
 	"sort"
 	"strings"
+	"unsafe"
 	rsync "sync"
 )
 
@@ -313,9 +314,19 @@ func accessF(f func() uintptr, name, where string, write bool) {
 	if e == nil || !e.trackRaces || e.running == nil {
 		return
 	}
-	if a, ok := safeAddr(f); ok {
+	if a, ok := safeAddr(f); ok && a != 0 {
 		access(a, name, where, write)
 	}
+}
+
+// MapPtr identifies a map value by the address of its runtime header (0 for a nil map): the
+// instrumenter observes a map as one location.
+func MapPtr(m interface{}) uintptr {
+	v := reflect.ValueOf(m)
+	if v.Kind() != reflect.Map || v.IsNil() {
+		return 0
+	}
+	return v.Pointer()
 }
 
 func safeAddr(f func() uintptr) (a uintptr, ok bool) {
@@ -520,12 +531,180 @@ func (m *Mutex) Unlock() {
 }
 
 type (
-	WaitGroup = rsync.WaitGroup
-	Once      = rsync.Once
-	Locker    = rsync.Locker
-	Map       = rsync.Map
-	Cond      = rsync.Cond
+	Locker = rsync.Locker
+	Cond   = rsync.Cond
 )
+
+// Once models sync.Once: the first Do runs f, every other Do waits for it to finish and then
+// observes everything f did (release/acquire on the Once's clock). "Done" survives across
+// executions like any other package-level state would; the clock does not.
+type Once struct {
+	mu      rsync.Mutex
+	done    bool
+	running bool
+	vc      VC
+	reg     bool
+}
+
+func (o *Once) vreset() { o.running, o.vc, o.reg = false, nil, false }
+
+func (o *Once) Do(f func()) {
+	e := cur
+	if e == nil || e.running == nil {
+		o.mu.Lock()
+		defer o.mu.Unlock()
+		if !o.done {
+			defer func() { o.done = true }()
+			f()
+		}
+		return
+	}
+	if !o.reg {
+		o.reg = true
+		e.register(o)
+	}
+	e.yield(&pendingOp{kind: opLock, label: "Once.Do", enabled: func() bool { return !o.running }})
+	if o.done {
+		e.running.vc.join(o.vc)
+		return
+	}
+	o.running = true
+	defer func() {
+		o.running, o.done = false, true
+		if t := e.running; t != nil {
+			o.vc.join(t.vc)
+			t.vc[t.id]++
+		}
+	}()
+	f()
+}
+
+// WaitGroup models sync.WaitGroup: Done releases, Wait blocks (visibly to the scheduler) until the
+// counter is zero and acquires.
+type WaitGroup struct {
+	real rsync.WaitGroup
+	n    int
+	vc   VC
+	reg  bool
+}
+
+func (w *WaitGroup) vreset() { w.n, w.vc, w.reg = 0, nil, false }
+
+func (w *WaitGroup) Add(delta int) {
+	e := cur
+	if e == nil || e.running == nil {
+		w.real.Add(delta)
+		return
+	}
+	if !w.reg {
+		w.reg = true
+		e.register(w)
+	}
+	w.n += delta
+	if w.n < 0 {
+		panic("sync: negative WaitGroup counter")
+	}
+	if delta < 0 {
+		t := e.running
+		w.vc.join(t.vc)
+		t.vc[t.id]++
+	}
+}
+
+func (w *WaitGroup) Done() { w.Add(-1) }
+
+func (w *WaitGroup) Wait() {
+	e := cur
+	if e == nil || e.running == nil {
+		w.real.Wait()
+		return
+	}
+	if !w.reg {
+		w.reg = true
+		e.register(w)
+	}
+	e.yield(&pendingOp{kind: opLock, label: "WaitGroup.Wait", enabled: func() bool { return w.n == 0 }})
+	e.running.vc.join(w.vc)
+}
+
+// Map models sync.Map: every operation is a scheduling point and synchronises with every other
+// operation on the same map (acquire + release on the map's clock - conservative: never a false
+// race through a sync.Map).
+type Map struct {
+	real rsync.Map
+	vc   VC
+	reg  bool
+}
+
+func (m *Map) vreset() { m.vc, m.reg = nil, false }
+
+func (m *Map) hb(label string) {
+	e := cur
+	if e == nil || e.running == nil {
+		return
+	}
+	if !m.reg {
+		m.reg = true
+		e.register(m)
+	}
+	e.yield(&pendingOp{kind: opPoint, label: label})
+	t := e.running
+	t.vc.join(m.vc)
+	m.vc.join(t.vc)
+	t.vc[t.id]++
+}
+
+func (m *Map) Load(k interface{}) (interface{}, bool) { m.hb("Map.Load"); return m.real.Load(k) }
+func (m *Map) Store(k, v interface{})                 { m.hb("Map.Store"); m.real.Store(k, v) }
+func (m *Map) LoadOrStore(k, v interface{}) (interface{}, bool) {
+	m.hb("Map.LoadOrStore")
+	return m.real.LoadOrStore(k, v)
+}
+func (m *Map) LoadAndDelete(k interface{}) (interface{}, bool) {
+	m.hb("Map.LoadAndDelete")
+	return m.real.LoadAndDelete(k)
+}
+func (m *Map) Delete(k interface{}) { m.hb("Map.Delete"); m.real.Delete(k) }
+func (m *Map) Swap(k, v interface{}) (interface{}, bool) {
+	m.hb("Map.Swap")
+	return m.real.Swap(k, v)
+}
+func (m *Map) CompareAndSwap(k, o, n interface{}) bool {
+	m.hb("Map.CompareAndSwap")
+	return m.real.CompareAndSwap(k, o, n)
+}
+func (m *Map) CompareAndDelete(k, o interface{}) bool {
+	m.hb("Map.CompareAndDelete")
+	return m.real.CompareAndDelete(k, o)
+}
+func (m *Map) Range(f func(k, v interface{}) bool) { m.hb("Map.Range"); m.real.Range(f) }
+func (m *Map) Clear()                              { m.hb("Map.Clear"); m.real.Clear() }
+
+// AtomicPoint / AtomicSync are called by the sync/atomic shim (package vatomic) before and after
+// every atomic operation: a scheduling point, then acquire + release on a per-address clock.
+func AtomicPoint(label string) {
+	e := cur
+	if e == nil || e.running == nil {
+		return
+	}
+	e.yield(&pendingOp{kind: opPoint, label: label})
+}
+
+func AtomicSync(addr uintptr) {
+	e := cur
+	if e == nil || e.running == nil {
+		return
+	}
+	v, ok := chanVC[addr]
+	if !ok {
+		v = &VC{}
+		chanVC[addr] = v
+	}
+	t := e.running
+	t.vc.join(*v)
+	v.join(t.vc)
+	t.vc[t.id]++
+}
 
 // Pool models sync.Pool: Get may return any pooled object or a new one (the real pool may drop
 // objects at any time) - an explorer choice with fan-out |pool|+1.
@@ -872,4 +1051,88 @@ func Explore(bound int, maxSchedules int, run func(prefix []int) *Execution, vis
 	}
 	rec(nil)
 	return st
+}
+
+// ---------------------------------------------------------------------------------------------
+// package-level state of the package under test
+
+// GlobalSnapshot holds the values of the package-level variables of the package under test as
+// they were before the first execution. Restoring it before every execution makes executions
+// independent of each other: a lazily built global is built again (and its construction explored
+// under every schedule) instead of being found ready by every execution after the first.
+// Depth: the variable itself; for a map its entries; for a non-nil pointer the struct it points
+// to; and the entries of map-typed fields of that struct (or of a struct-typed variable).
+type GlobalSnapshot struct{ vars []savedVar }
+
+type savedVar struct {
+	ptr     reflect.Value // pointer to the variable
+	val     reflect.Value // copy of its value
+	pointee reflect.Value // copy of *val for pointer-typed variables (invalid otherwise)
+}
+
+func copyOf(v reflect.Value) reflect.Value {
+	c := reflect.New(v.Type()).Elem()
+	c.Set(v)
+	return c
+}
+
+func settable(v reflect.Value) reflect.Value {
+	if v.CanSet() {
+		return v
+	}
+	return reflect.NewAt(v.Type(), unsafe.Pointer(v.UnsafeAddr())).Elem()
+}
+
+func copyMap(m reflect.Value) reflect.Value {
+	if m.IsNil() {
+		return reflect.Zero(m.Type())
+	}
+	c := reflect.MakeMapWithSize(m.Type(), m.Len())
+	for it := m.MapRange(); it.Next(); {
+		c.SetMapIndex(it.Key(), it.Value())
+	}
+	return c
+}
+
+// freshMaps replaces v itself (if a map) or the map-typed fields of v (if a struct) by copies.
+func freshMaps(v reflect.Value) {
+	switch v.Kind() {
+	case reflect.Map:
+		v.Set(copyMap(v))
+	case reflect.Struct:
+		for i := 0; i < v.NumField(); i++ {
+			if f := v.Field(i); f.Kind() == reflect.Map {
+				f = settable(f)
+				f.Set(copyMap(f))
+			}
+		}
+	}
+}
+
+func SnapshotGlobals(ptrs []interface{}) *GlobalSnapshot {
+	s := &GlobalSnapshot{}
+	for _, p := range ptrs {
+		pv := reflect.ValueOf(p)
+		sv := savedVar{ptr: pv, val: copyOf(pv.Elem())}
+		freshMaps(sv.val)
+		if sv.val.Kind() == reflect.Ptr && !sv.val.IsNil() {
+			sv.pointee = copyOf(sv.val.Elem())
+			freshMaps(sv.pointee)
+		}
+		s.vars = append(s.vars, sv)
+	}
+	return s
+}
+
+func (s *GlobalSnapshot) Restore() {
+	for _, sv := range s.vars {
+		v := copyOf(sv.val)
+		freshMaps(v)
+		sv.ptr.Elem().Set(v)
+		if sv.pointee.IsValid() {
+			pv := copyOf(sv.pointee)
+			freshMaps(pv)
+			sv.ptr.Elem().Elem().Set(pv)
+		}
+	}
 }
